@@ -7,6 +7,19 @@ from substrate.shims import SimTime, SimDatetimeModule, SeededRandomModule
 
 HPORT = 8080
 
+
+class _SysShim(object):
+    """`sys` as seen by ioflo.aio.http.serving: stderr goes to a buffer (the Valet reports parse errors there)."""
+
+    def __init__(self):
+        import io
+        import sys
+        self._sys = sys
+        self.stderr = io.StringIO()
+
+    def __getattr__(self, name):
+        return getattr(self._sys, name)
+
 TOKENS = ["X-Alpha", "x-beta", "X-GAMMA", "Accept", "X-Req-Id", "Cache-Control", "X-Trace", "Etag"]
 
 
@@ -17,6 +30,7 @@ def http_world(seed=0, **kw):
         ("ioflo.aio.http.serving", "datetime", SimDatetimeModule(clock)),
         ("ioflo.aio.http.clienting", "random", SeededRandomModule(_random.Random(seed))),
         ("ioflo.aio.http.clienting", "time", clock),
+        ("ioflo.aio.http.serving", "sys", _SysShim()),
     ]
     with world(extra=extra, **kw) as net:
         net.clock = clock
